@@ -1,12 +1,13 @@
 (* Attr.v -- executable model of the generic attribute properties of odfdo elements
      Element._generic_attrib_getter / _generic_attrib_setter / _define_attribut_property  (src/odfdo/element.py)
    and of the part of a constructor that stores arguments through such properties.  Definitions only. *)
-From Coq Require Import String List Bool. Import ListNotations. Open Scope string_scope.
+From Coq Require Import String List Bool ZArith. Import ListNotations. Open Scope string_scope.
 
 (* Python values as the generic setter distinguishes them:
      None | bool | str | anything else.   For "anything else" the model carries what CPython computed:
      s = str(value) and t = bool(value) (external, supplied by the harness, universally quantified in the theorems). *)
-Inductive val := VNone | VBool (b : bool) | VStr (s : string) | VOther (s : string) (t : bool).
+Inductive val := VNone | VBool (b : bool) | VStr (s : string) | VOther (s : string) (t : bool)
+  | VNum (z : Z) (s : string).   (* an int: its value (for `x >= 2` guards) and s = str(z) as computed by CPython *)
 
 Definition val_eqb (a b : val) : bool :=
   match a, b with
@@ -14,6 +15,7 @@ Definition val_eqb (a b : val) : bool :=
   | VBool x, VBool y => Bool.eqb x y
   | VStr x, VStr y => String.eqb x y
   | VOther x t, VOther y u => String.eqb x y && Bool.eqb t u
+  | VNum x a, VNum y b => Z.eqb x y && String.eqb a b
   | _, _ => false
   end.
 
@@ -38,6 +40,7 @@ Definition encode (v : val) : option string :=
   | VBool false => Some "false"
   | VStr s => Some s
   | VOther s _ => Some s
+  | VNum _ s => Some s
   end.
 
 (* attribute text -> value: absent is None; "true"/"false" is Boolean.decode; str(value) otherwise *)
@@ -78,7 +81,8 @@ Fixpoint attrs_eqb (a b : attrs) : bool :=
 (* ---------------------------------------------------------------- constructors (table in Gen_Ctors.v) *)
 
 (* condition under which `self.<prop> = <arg>` is executed *)
-Inductive guard := GNone | GTruthy | GNotNone.
+Inductive guard := GNone | GTruthy | GNotNone
+  | GGe (n : Z).     (* `if x and x >= n` / `if x is not None and x >= n` / `x > n-1`: an int not below n *)
 (* what is stored: the argument, f(argument) for a named Python function, `argument or <constant>` *)
 Inductive conv := CId | CConv (f : string) | COrDefault.
 
@@ -87,17 +91,22 @@ Inductive akind :=
 | StoredConst (prop : string) (b : bool) (generic : option (string * string))        (* `if arg: self.prop = True` *)
 | StoredCond (prop : string)      (* stored, but only under a condition on something else: no obligation *)
 | NonProp (target : string)       (* stored into a plain Python attribute: no obligation, exercised by the correspondence *)
+| ViaHelper (helper key : string) (* handed unchanged to a method of the object (set_value, set_properties via kwargs[key] ...): no obligation *)
+| StoredIndexed (props : list string)  (* `self.p = arg[i]` for a tuple argument: no obligation *)
 | Dropped                         (* accepted by __init__ and stored nowhere *)
 | Unrecognised.                   (* any other use: no obligation, exercised by the correspondence *)
 
 Record centry := mkC { c_class : string; c_arg : string; c_kind : akind }.
 
 Definition truthy (v : val) : bool :=
-  match v with VNone => false | VBool b => b | VStr s => negb (String.eqb s "") | VOther _ t => t end.
+  match v with VNone => false | VBool b => b | VStr s => negb (String.eqb s "") | VOther _ t => t | VNum z _ => negb (Z.eqb z 0) end.
 Definition is_none (v : val) : bool := match v with VNone => true | _ => false end.
 
 Definition holds (g : guard) (v : val) : bool :=
-  match g with GNone => true | GTruthy => truthy v | GNotNone => negb (is_none v) end.
+  match g with
+  | GNone => true | GTruthy => truthy v | GNotNone => negb (is_none v)
+  | GGe n => match v with VNum z _ => Z.leb n z | _ => false end
+  end.
 
 (* one store of a constructor on a generic property: (attribute, family, executed?, value stored) --
    `executed` is the value of the guard on the caller's argument, the value stored is the argument after conversion
